@@ -46,7 +46,9 @@ def hashable(depth=0):
 def value(depth=0, max_depth=6):
     if depth >= max_depth:
         return leaf()
-    kid = st.deferred(lambda: value(depth + 1, max_depth))
+    # ["ref", i]: the i-th container completed so far in this value, again (the same object referenced from two places; never a cycle)
+    kid = st.one_of(st.deferred(lambda: value(depth + 1, max_depth)), st.deferred(lambda: value(depth + 1, max_depth)), st.deferred(lambda: value(depth + 1, max_depth)),
+                    st.integers(0, 7).map(lambda i: ["ref", i]))
     kids = st.lists(kid, max_size=4)
     pairs = st.lists(st.tuples(hashable(1), kid).map(list), max_size=4)
     containers = st.one_of(
@@ -71,7 +73,19 @@ def value(depth=0, max_depth=6):
     return st.one_of(leaf(), leaf(), containers)
 
 
-def build(spec):
+def build(spec, done=None):
+    """done: containers completed so far (build order); a ["ref", i] node is done[i % len(done)] - the same object once more."""
+    done = done if done is not None else []
+    k = spec[0]
+    if k == "ref":
+        return done[spec[1] % len(done)] if done else None
+    v = _build(spec, done)
+    if k in ("list", "tuple", "dict", "set", "frozenset", "deque", "Counter", "defaultdict") and len(v) > 0:
+        done.append(v)
+    return v
+
+
+def _build(spec, done):
     k = spec[0]
     if k == "str":
         return spec[1]
@@ -82,26 +96,26 @@ def build(spec):
     if k == "none":
         return None
     if k == "list":
-        return [build(x) for x in spec[1]]
+        return [build(x, done) for x in spec[1]]
     if k == "tuple":
-        return tuple(build(x) for x in spec[1])
+        return tuple(build(x, done) for x in spec[1])
     if k == "dict":
-        return {build(a): build(b) for a, b in spec[1]}
+        return {build(a, done): build(b, done) for a, b in spec[1]}
     if k == "set":
-        return {build(x) for x in spec[1]}
+        return {build(x, done) for x in spec[1]}
     if k == "frozenset":
-        return frozenset(build(x) for x in spec[1])
+        return frozenset(build(x, done) for x in spec[1])
     if k == "deque":
-        return deque([build(x) for x in spec[1]], maxlen=spec[2])
+        return deque([build(x, done) for x in spec[1]], maxlen=spec[2])
     if k == "Counter":
         c = Counter()
         for a, n in spec[1]:
-            c[build(a)] = n
+            c[build(a, done)] = n
         return c
     if k == "defaultdict":
         d = defaultdict({"none": None, "int": int, "list": list}[spec[1]])
         for a, b in spec[2]:
-            d[build(a)] = build(b)
+            d[build(a, done)] = build(b, done)
         return d
     if k == "array":
         return array(spec[1], spec[2])
@@ -125,13 +139,15 @@ def canon(v):
     return (t.__name__, v)
 
 
-BUILTIN_ONLY = {"list", "tuple", "dict", "set", "frozenset", "str", "bytes", "int", "float", "bool", "none"}
+BUILTIN_ONLY = {"list", "tuple", "dict", "set", "frozenset", "str", "bytes", "int", "float", "bool", "none", "ref"}
 
 
 def kinds(spec, acc=None, depth=0, info=None):
     acc = acc if acc is not None else set()
     info = info if info is not None else {"depth": 0, "one_tuple_below": False, "empty_typed_below": False}
     acc.add(spec[0])
+    if spec[0] == "ref":
+        return acc, info
     info["depth"] = max(info["depth"], depth)
     k = spec[0]
     if depth > 0:
@@ -297,6 +313,8 @@ class RoundTrip(Part):
             return
         if info["depth"] >= 2 and (info["one_tuple_below"] or info["empty_typed_below"]) and not fits:
             ctx.nontrivial = True
+        if "ref" in ks:
+            ctx.cls("object-referenced-twice")
         if info["one_tuple_below"]:
             ctx.cls("one-tuple-below-root")
         if info["empty_typed_below"]:
@@ -360,4 +378,75 @@ class Abbrev(Part):
             ctx.cls("abbreviated")
 
 
-PARTS = [RoundTrip(), Abbrev()]
+class Rerender(Part):
+    name = "rerender"
+    rule = ("the Pretty renderable of a list/dict value (short leaves, depth <= 3) printed and measured on a console, the value then edited in place (append / set key / "
+            "edit of a nested container), and the same Pretty printed again at another width: every printed text evaluates to the value as it is at that moment; "
+            "non-trivial = the edit changed a nested container and the second text spans several lines")
+    budget = {"quick": (8, 600), "thorough": (16, 6000)}
+
+    def strategy(self, tier):
+        lf = st.one_of(st.integers(0, 99).map(lambda n: ["int", n]), st.text(st.sampled_from("abc"), max_size=5).map(lambda x: ["str", x]), st.just(["none"]))
+
+        def val(depth):
+            if depth >= 3:
+                return lf
+            kid = st.deferred(lambda: val(depth + 1))
+            kids = st.lists(kid, max_size=4)
+            cont = st.one_of(kids.map(lambda k: ["list", k]), st.lists(st.tuples(lf, kid).map(list), max_size=3).map(lambda p: ["dict", p]), kids.map(lambda k: ["tuple", k]))
+            return cont if depth == 0 else st.one_of(lf, cont)
+
+        root = st.one_of(st.lists(val(1), max_size=4).map(lambda k: ["list", k]), st.lists(st.tuples(lf, val(1)).map(list), max_size=3).map(lambda p: ["dict", p]))
+        edit = st.tuples(st.sampled_from(["root", "nested"]), val(1)).map(list)
+        return st.builds(lambda v, w1, w2, edits, measure, kw: {"v": v, "w1": w1, "w2": w2, "edits": edits, "measure": measure, "kw": kw}, root, st.integers(40, 120), st.integers(40, 120),
+                         st.lists(edit, min_size=1, max_size=3), st.booleans(), st.sampled_from([{}, {}, {"expand_all": True}, {"indent_size": 2}, {"max_length": None, "margin": 3}]))
+
+    def check(self, spec, ctx):
+        import io
+        from rich.console import Console
+        from rich.pretty import Pretty
+        from rich.measure import Measurement
+
+        v = build(spec["v"])
+        pretty = sut(Pretty, v, **spec["kw"])
+
+        def show(w, when):
+            con = Console(file=io.StringIO(), width=w, color_system=None, force_terminal=False, _environ={})
+            if spec["measure"]:
+                sut(Measurement.get, con, pretty, w)
+            sut(con.print, pretty)
+            out = con.file.getvalue()
+            try:
+                back = eval(out, dict(EVAL_ENV))
+            except Exception as e:  # noqa
+                ctx.violation("eval", "C16/rerender/eval-%s" % type(e).__name__, "Pretty(%r) printed %s at width %d:\n%s\ndoes not evaluate: %r" % (v, when, w, out, e))
+                return None
+            if canon(back) != canon(v):
+                ctx.violation("eval", "C16/rerender/stale", "Pretty of a value that is now %r printed %s at width %d:\n%s" % (v, when, w, out))
+                return None
+            return out
+
+        if show(spec["w1"], "first") is None:
+            return
+        nested_changed = False
+        for where, sub in spec["edits"]:
+            x = build(sub)
+            target = v
+            if where == "nested":
+                inner = [c for c in (v.values() if isinstance(v, dict) else v) if isinstance(c, (list, dict))]
+                if inner:
+                    target = inner[0]
+                    nested_changed = True
+            if isinstance(target, dict):
+                target["k%d" % len(target)] = x
+            else:
+                target.append(x)
+        out = show(spec["w2"], "again after %d edit(s)" % len(spec["edits"]))
+        if out is None:
+            return
+        if nested_changed and out.count("\n") > 1:
+            ctx.nontrivial = True
+        ctx.cls("nested-edit" if nested_changed else "root-edit")
+
+
+PARTS = [RoundTrip(), Abbrev(), Rerender()]
